@@ -165,3 +165,7 @@ package rlp
 //@   requires wfStream(s) && 0 <= maxbits && maxbits <= 64
 //@   ensures wfStream(s)
 //@   nopanic
+
+// the reflection-driven encoder only reads its argument (assumed; its type cache is keyed by a struct and outside the subset)
+//@ func EncodeToBytes   trusted
+//@   modifies nothing
